@@ -15,6 +15,7 @@ import Driver.Scrypt
 import Driver.ShaCrypt
 import Driver.Backend
 import Driver.Libpass
+import Driver.LibpassBcryptStr
 import Driver.Verify
 import Driver.Md4
 import Driver.TotpSerial
@@ -58,6 +59,7 @@ def dispatch (line : String) : String :=
   | "shac" :: rest => Driver.ShaCrypt.handle rest
   | "backend" :: rest => Driver.Backend.handle rest
   | "lp" :: rest => Driver.Libpass.handle rest
+  | "lpbs" :: rest => Driver.LibpassBcryptStr.handle rest
   | "vfy" :: rest => Driver.Verify.handle rest
   | "md4" :: rest => Driver.Md4.handle rest
   | "tser" :: rest => Driver.TotpSerial.handle rest
